@@ -260,6 +260,19 @@ CommitEffect(op, keyopt, algo, d, n, o, pubStore) ==
             /\ hasIndex' = TRUE
             /\ res' = Ok(e.sri)
 
+\* the verdict alone (same order of checks as CommitEffect), for a commit whose effects land in
+\* ANOTHER directory: a writer opened through a relative cache path and committed after the
+\* process changed its working directory - the path is resolved when it is used, so content and
+\* index record both go to the cache that path names THEN, and this cache is left alone
+CommitRes(keyopt, algo, d, n, o) ==
+    LET addr == [a |-> algo, d |-> d] IN
+    IF o.sri # <<>> /\ ~Matches(o.sri, addr) THEN Err("Integrity")
+    ELSE IF o.size # <<>> /\ o.size[1] # n THEN ErrSize(o.size[1], n)
+    ELSE IF o.size = <<>> /\ "sizes" \in DOMAIN o /\ o.sizes # "DEFAULT" THEN ErrSize(0 - 1, n)
+    ELSE IF keyopt = <<>> THEN Ok(<<addr>>)
+    ELSE IF ~Storable(o) THEN Err("Serde")
+    ELSE Ok(IF o.sri # <<>> THEN o.sri ELSE <<addr>>)
+
 KeyOpt(op) == IF Has(op, "key") THEN <<op.key>> ELSE <<>>
 
 \* write / write_sync / write_with_algo / write_hash* : the whole sequence in one call
@@ -310,6 +323,11 @@ Commit(op) ==
        /\ hd' = Del(hd, op.h)
        /\ IF w.closed
           THEN res' = Err("IoOther") /\ UNCHANGED disk
+          ELSE IF Has(op, "elsewhere") /\ ~w.gone
+          THEN /\ LenOf(op.fed) = w.n
+               /\ res' = CommitRes(w.key, w.algo, op.fed, w.n, w.opts)
+               /\ tmp' = tmp - 1                 \* its temp file (an absolute path) is renamed away
+               /\ UNCHANGED <<buckets, store, ext, hasIndex>>
           ELSE IF w.gone
           THEN \* the temp file was swept away (clear): persisting fails; accepted only if the
                \* destination already exists
